@@ -1,0 +1,57 @@
+//go:build verif
+
+// Contracts for package orb, read by the VC generator in /verif (govc).
+// This file is comments only; it is compiled only with -tags verif and adds no code.
+
+package orb
+
+// ---------------------------------------------------------------- spec functions
+
+//@ spec nonanP(p Point) bool = !isnan(p[0]) && !isnan(p[1])
+//@ spec nonanB(b Bound) bool = nonanP(b.Min) && nonanP(b.Max)
+//@ spec contains(b Bound, p Point) bool = !(p[1] < b.Min[1] || b.Max[1] < p[1]) && !(p[0] < b.Min[0] || b.Max[0] < p[0])
+//@ spec isempty(b Bound) bool = b.Min[0] > b.Max[0] || b.Min[1] > b.Max[1]
+//@ spec fmin(a float64, b float64) float64 = ite(a < b, a, b)
+//@ spec fmax(a float64, b float64) float64 = ite(a > b, a, b)
+//@ spec beq(a Bound, b Bound) bool = a.Min[0] == b.Min[0] && a.Min[1] == b.Min[1] && a.Max[0] == b.Max[0] && a.Max[1] == b.Max[1]
+//@ spec isExtend(r Bound, b Bound, p Point) bool = r.Min[0] == fmin(b.Min[0], p[0]) && r.Min[1] == fmin(b.Min[1], p[1]) && r.Max[0] == fmax(b.Max[0], p[0]) && r.Max[1] == fmax(b.Max[1], p[1])
+//@ spec isJoin(r Bound, a Bound, b Bound) bool = r.Min[0] == fmin(a.Min[0], b.Min[0]) && r.Min[1] == fmin(a.Min[1], b.Min[1]) && r.Max[0] == fmax(a.Max[0], b.Max[0]) && r.Max[1] == fmax(a.Max[1], b.Max[1])
+//@ spec isUnion(r Bound, a Bound, b Bound) bool = ite(isempty(b), beq(r, a), ite(isempty(a), beq(r, b), isJoin(r, a, b)))
+//@ spec intersects(a Bound, b Bound) bool = !(a.Max[0] < b.Min[0] || a.Min[0] > b.Max[0] || a.Max[1] < b.Min[1] || a.Min[1] > b.Max[1])
+
+// ---------------------------------------------------------------- Bound
+
+//@ func (Bound).Contains(b, point)
+//@   pure
+//@   ensures result == contains(b, point)
+
+//@ func (Bound).IsEmpty(b)
+//@   pure
+//@   ensures result == isempty(b)
+
+//@ func (Bound).Extend(b, point)
+//@   pure
+//@   requires nonanB(b) && nonanP(point)
+//@   ensures isExtend(result, b, point)
+//@   ensures nonanB(result)
+
+//@ func (Bound).Union(b, other)
+//@   pure
+//@   requires nonanB(b) && nonanB(other)
+//@   ensures isUnion(result, b, other)
+//@   ensures nonanB(result)
+
+//@ func (Bound).Intersects(b, bound)
+//@   pure
+//@   ensures result == intersects(b, bound)
+
+// ---------------------------------------------------------------- LineString
+
+//@ func (LineString).Reverse(ls)
+//@   floats bits
+//@   ensures len(ls) == old(len(ls))
+//@   ensures forall k :: 0 <= k && k < len(ls) ==> same(ls[k], old(ls[len(ls)-1-k]))
+//@   modifies ls[*]
+//@   loop 1: invariant l == len(ls) - 1 && 0 <= i && i <= l/2 + 1
+//@   loop 1: invariant forall k :: 0 <= k && k < i ==> same(ls[k], old(ls[l-k])) && same(ls[l-k], old(ls[k]))
+//@   loop 1: invariant forall k :: i <= k && k <= l-i ==> same(ls[k], old(ls[k]))
